@@ -559,7 +559,7 @@ func (r *ccipChainReader) GetWrappedNativeTokenPriceUSD(
 			continue
 		}
 
-		if update == nil || update.Timestamp == 0 {
+		if update == nil || update.Timestamp == 0 || update.Value == nil {
 			r.lggr.Warnw("no native token price available", "chain", chain)
 			continue
 		}
@@ -1013,6 +1013,9 @@ func (r *ccipChainReader) getFeeQuoterTokenPriceUSD(ctx context.Context, tokenAd
 	}
 
 	price := timestampedPrice.Value
+	if price == nil {
+		return cciptypes.BigInt{}, fmt.Errorf("LINK token price is nil, addr: %v", tokenAddr)
+	}
 
 	if price.Cmp(big.NewInt(0)) == 0 {
 		return cciptypes.BigInt{}, fmt.Errorf("LINK token price is 0, addr: %v", tokenAddr)
